@@ -231,6 +231,12 @@ func checkC02(c *Ctx) {
 			"query parameters are not declared for every verb in the OpenAPI operation")
 	}
 	c02QueryWiring(c)
+	r.Rule("R02k", "the TS server percent-decodes path values per segment, after splitting the encoded path (shared with C08/R08b)", 2)
+	tsServerSegmentDecode(c, "R02k")
+	r.Rule("R02l", "the request message is allocated inside the per-request handler (a message shared by all requests of a route keeps URL-bound values of earlier requests)", 1)
+	requestAllocatedPerRequest(c, ep, "R02l")
+	r.Rule("R02j", "the URL value handed to the kind conversion is the value taken from the URL, unmodified", 1)
+	convertKeepsValue(c, ep, "R02j")
 	c02ParamTableFidelity(c)
 }
 
@@ -674,4 +680,92 @@ func c02ParamTableFidelity(c *Ctx) {
 		return
 	}
 	r.OKd("R02i", "query parameter table entries copy the annotation", "", map[string]any{"lines": n, "deviations": len(bads)})
+}
+
+// requestAllocatedPerRequest: in the emitted BindingMiddleware the request message (new(Req)) is created inside the
+// function literal that serves a request, never in the enclosing function, which runs once per route.
+func requestAllocatedPerRequest(c *Ctx, ep *EmittedPkg, rid string) {
+	r := c.R
+	fd, lit := middlewareLit(ep)
+	if fd == nil || lit == nil {
+		r.Unres(rid, "BindingMiddleware handler literal", "", "not found")
+		return
+	}
+	n := 0
+	var outside token.Pos
+	ast.Inspect(fd.Body, func(nd ast.Node) bool {
+		call, ok := nd.(*ast.CallExpr)
+		if !ok {
+			return true
+		}
+		id, ok := call.Fun.(*ast.Ident)
+		if !ok || id.Name != "new" || len(call.Args) != 1 {
+			return true
+		}
+		if _, isB := ep.Info.Uses[id].(*types.Builtin); !isB {
+			return true
+		}
+		if tv, ok := ep.Info.Types[call.Args[0]]; !ok || !tv.IsType() {
+			return true
+		} else if _, isTP := tv.Type.(*types.TypeParam); !isTP {
+			return true
+		}
+		n++
+		if !(call.Pos() >= lit.Pos() && call.Pos() < lit.End()) {
+			outside = call.Pos()
+		}
+		return true
+	})
+	pos := ep.GenPos(fd.Pos())
+	if outside != token.NoPos {
+		pos = ep.GenPos(outside)
+	}
+	r.Check(n > 0 && outside == token.NoPos, rid, "BindingMiddleware allocates the request message per request", pos,
+		"the request message is created outside the per-request function literal: every request to the route binds into the same message; a request without a body (GET, DELETE, empty body) keeps the path and query values an earlier request left there, and concurrent requests race")
+}
+
+// convertKeepsValue: convertStringToFieldValue never reassigns its string parameter (no trimming, case folding,
+// unescaping): the value the handler sees is the value the URL carries.
+func convertKeepsValue(c *Ctx, ep *EmittedPkg, rid string) {
+	r := c.R
+	fd := ep.Funcs["convertStringToFieldValue"]
+	if fd == nil {
+		r.Unres(rid, "convertStringToFieldValue", "", "emitted function not found")
+		return
+	}
+	var strParams []types.Object
+	for _, f := range fd.Type.Params.List {
+		for _, nm := range f.Names {
+			if o := ep.Info.Defs[nm]; o != nil {
+				if b, ok := o.Type().Underlying().(*types.Basic); ok && b.Info()&types.IsString != 0 {
+					strParams = append(strParams, o)
+				}
+			}
+		}
+	}
+	bad := ""
+	var bpos token.Pos
+	ast.Inspect(fd.Body, func(nd ast.Node) bool {
+		as, ok := nd.(*ast.AssignStmt)
+		if !ok {
+			return true
+		}
+		for _, l := range as.Lhs {
+			if id, ok := l.(*ast.Ident); ok && as.Tok != token.DEFINE {
+				for _, p := range strParams {
+					if ep.Info.ObjectOf(id) == p {
+						bad = types.ExprString(as.Lhs[0]) + " = " + types.ExprString(as.Rhs[0])
+						bpos = as.Pos()
+					}
+				}
+			}
+		}
+		return true
+	})
+	pos := ep.GenPos(fd.Pos())
+	if bad != "" {
+		pos = ep.GenPos(bpos)
+	}
+	r.Check(len(strParams) > 0 && bad == "", rid, "convertStringToFieldValue converts the URL value as given", pos,
+		"convertStringToFieldValue rewrites the URL value before converting it ("+bad+"): for string fields the handler no longer receives the value given in the URL (leading/trailing blanks, case, …)")
 }
